@@ -156,7 +156,8 @@ def step (s : St) (line : List String) : St × String :=
       udpMax := kvNat toks "udpmax" 0, cacheTtl := kvNat toks "cache" 0,
       retryChance := kvNat toks "retrychance" 0, retryDelay := kvNat toks "retrydelay" 5000,
       pendingWrite := kvNat toks "pendingwrite" 0 != 0, ndots := kvNat toks "ndots" 1,
-      domains := (((kv toks "domains").getD "").splitOn ",").filter (· ≠ "") |>.map hexOfText }
+      domains := (((kv toks "domains").getD "").splitOn ",").filter (· ≠ "") |>.map hexOfText,
+      lookups := (kv toks "lookups").getD "b" }
     let srvs := (List.range servers.length).zip servers |>.map fun (i, a) => ({ id := i, addr := a } : Server)
     ({ cfg := cfg, alive := true, servers := srvs }, "ok")
   | "reaction" :: _ =>
@@ -176,8 +177,9 @@ def step (s : St) (line : List String) : St × String :=
       let kind := (kv toks "kind").getD "send"
       let react := reactList ((kv toks "react").getD "")
       let (s, st) := if kind == "send" then exec fuelMax (.sendNolock none false false spec (.user tok) react) s
-                     else exec fuelMax (.clientStart kind tok react spec) s
-      render (s.emit s!"ret({tok},{st.name})") true
+                     else exec fuelMax (.clientStart kind tok react spec (kvNat toks "fam" 2)) s
+      -- ares_getaddrinfo() returns nothing: the harness prints `ok`
+      render (s.emit s!"ret({tok},{if kind == "gai" then "ok" else st.name})") true
     else if op == "reply" then
       match txRef s toks "tx" with
       | none => render (s.emit "notx") true
